@@ -5,11 +5,95 @@ use islamic_prayer_times::{prayer_times_dt, Prayer};
 
 use crate::gen::{secs, ParamSpec, Site, Times, WeatherSpec, PRAYERS};
 
+/// One library call for a prayer-time property. Most calls go straight to `prayer_times_dt`; a fixed share (chosen by a
+/// hash of the arguments, so the same arguments always take the same route) reaches the same computation another way,
+/// because every one of these routes is documented to give the same answer and a user may take any of them:
+///   * the parameters / the location pass through the library's own JSON form first (what the CLI's `-p`/`-i` files do),
+///   * the result passes through its JSON form and back (what the CLI's `-o` file does),
+///   * the date is asked for through the range API - as the middle day of a three-day range, or as the last day of a
+///     range that starts up to 20 days earlier (only without explicit weather: the range API takes none).
+/// The caller's oracle then judges whatever came back. On a tree where the routes agree this changes nothing.
 pub fn compute(site: &Site, spec: &ParamSpec, date: NaiveDate, weather: Option<WeatherSpec>) -> Times {
-    let params = spec.build();
-    let r = prayer_times_dt(&params, site.location(), date, weather.map(|w| w.build()));
+    let r = routed(site, spec, date, weather);
     revisit(site, spec, date, weather, &r);
     r
+}
+
+fn routed(site: &Site, spec: &ParamSpec, date: NaiveDate, weather: Option<WeatherSpec>) -> Times {
+    use islamic_prayer_times::{prayer_times_dt_rng, DateRange, Location, Params};
+    let mut params = spec.build();
+    let mut loc = site.location();
+    let h = route_hash(site, spec, date);
+    let route = if std::env::var_os("VERIF_NO_ROUTES").is_some() { 15 } else { h % 16 };
+    let mut r: Option<Times> = None;
+    match route {
+        0 => {
+            ROUTES.with(|c| c.borrow_mut()[0] += 1);
+            let j = serde_json::to_string(&params).expect("Params serialises");
+            params = serde_json::from_str::<Params>(&j).expect("the library's own Params JSON parses back");
+        }
+        1 => {
+            ROUTES.with(|c| c.borrow_mut()[1] += 1);
+            let j = serde_json::to_string(&loc).expect("Location serialises");
+            loc = serde_json::from_str::<Location>(&j).expect("the library's own Location JSON parses back");
+        }
+        3 | 4 if weather.is_none() => {
+            let back = if route == 3 { 1 } else { 2 + ((h >> 8) % 19) as i64 };
+            let fwd = if route == 3 { 1 } else { 0 };
+            if let (Some(a), Some(b)) = (date.checked_sub_signed(chrono::Duration::days(back)), date.checked_add_signed(chrono::Duration::days(fwd))) {
+                ROUTES.with(|c| c.borrow_mut()[route as usize] += 1);
+                let mut m = prayer_times_dt_rng(&params, loc, &DateRange::from(a..=b));
+                r = Some(m.remove(&date).expect("the range API returns an entry for every date of the range"));
+            }
+        }
+        _ => {}
+    }
+    let mut r = match r {
+        Some(x) => x,
+        None => prayer_times_dt(&params, loc, date, weather.map(|w| w.build())),
+    };
+    if route == 2 {
+        ROUTES.with(|c| c.borrow_mut()[2] += 1);
+        let j = serde_json::to_string(&r).expect("a result serialises");
+        r = serde_json::from_str::<Times>(&j).expect("the library's own result JSON parses back");
+    }
+    r
+}
+
+thread_local! {
+    static ROUTES: std::cell::RefCell<[u64; 5]> = const { std::cell::RefCell::new([0; 5]) };
+}
+
+fn route_hash(site: &Site, spec: &ParamSpec, date: NaiveDate) -> u64 {
+    use chrono::Datelike;
+    crate::engine::mix(&[
+        site.lat.0.to_bits(),
+        site.lon.0.to_bits(),
+        site.gmt.0.to_bits(),
+        date.num_days_from_ce() as u64,
+        spec.method as u64 * 64 + spec.policy as u64 * 4 + spec.rounding as u64,
+        0x52_4f_55_54,
+    ])
+}
+
+/// Moves this thread's route counters into the statistics of its shard (classes `route_*`).
+pub fn drain_route_counts(st: &mut crate::engine::Stats) {
+    const NAMES: [&str; 5] = [
+        "route_params_through_json",
+        "route_location_through_json",
+        "route_result_through_json",
+        "route_range_api_middle_day",
+        "route_range_api_last_day_of_longer_range",
+    ];
+    ROUTES.with(|c| {
+        let mut c = c.borrow_mut();
+        for (i, n) in c.iter_mut().enumerate() {
+            if *n > 0 {
+                st.class_n(NAMES[i], *n);
+                *n = 0;
+            }
+        }
+    });
 }
 
 type Remembered = (Site, ParamSpec, NaiveDate, Option<WeatherSpec>, Times);
@@ -52,8 +136,8 @@ fn revisit(site: &Site, spec: &ParamSpec, date: NaiveDate, weather: Option<Weath
             }
         });
         if let Some((s, sp, d, w, then)) = old {
-            let params = sp.build();
-            let now = prayer_times_dt(&params, s.location(), d, w.map(|x| x.build()));
+            // (the same arguments take the same route as the first time)
+            let now = routed(&s, &sp, d, w);
             if now != then {
                 panic!(
                     "history-dependence: the same arguments gave a different result after other calls on this thread: site {:?} date {} method {} policy {}: before [{}] now [{}]",
